@@ -10,8 +10,8 @@ C13 — property theorems about the structural model of Holpy/C13/Model.lean.
 Proved: each of the five operations (`add_line_before`, `remove_line`, `set_line`, `replace_id`,
 `apply_tactic`) preserves `wf` under the precondition the code establishes for it, hence every
 sequence does; in a well-formed state every citation names an existing earlier visible line.
-For the last top-level line (the stated goal) only the three primitive edits are covered
-(`goal_preserved_partial`, under `safeRun`); `replace_id` / `apply_tactic` and the export/import
+For the last top-level line (the stated goal) only the four primitive edits are covered
+(`goal_preserved_partial`, under `safeRun`); `apply_tactic` as a composite and the export/import
 pair are judged by the oracle of harness/props/c13.py and the correspondence stream only.
 -/
 namespace Holpy.C13
@@ -185,11 +185,12 @@ theorem goal_preserved_nested_partial (s s' : Proof) (i j : Nat) (rest : List Na
     · simp at h
     · rw [hrest] at h; exact sig_modifyAt_nested _ _ _ _ _ h
 
-/-- Along every completed sequence of `add_line_before` / `remove_line` / `set_line` calls whose
-targets are existing lines and never the last top-level line itself (`safeRun`: what the methods
-establish — they insert before existing lines and remove/overwrite gaps or lines they inserted,
-while the last line is the `intros` line), the last top-level line keeps its rule and its stated
-sequent.  Partial: `replace_id` and the composite `apply_tactic` are not covered by the theorem. -/
+/-- Along every completed sequence of `add_line_before` / `remove_line` / `set_line` / `replace_id`
+calls whose targets are existing lines and never the last top-level line itself (`safeRun`), the
+last top-level line keeps its rule and its stated sequent.  Partial: this only says that edits
+which do not target the last line leave it alone; that the methods meet `safeRun` (they remove and
+overwrite gaps and lines they inserted, the last line is the `intros` line) and that the composite
+`apply_tactic` keeps the last line is not proved (oracle + correspondence only). -/
 theorem goal_preserved_partial (ops : List Op) (s s' : Proof) (hs : safeRun s ops) (h : run s ops = .ok s') :
     (s'.getLast?).map sigOf = (s.getLast?).map sigOf :=
   goal_preserved_run ops s s' hs h
